@@ -12,9 +12,12 @@ section 0 turn every statement into one about state ids; that `pathTo` is a bije
 (a) Consistency.  Every query answers from the NEAREST COMPOSITE ANCESTOR only (`query_nearest_fork`);
     hence `isActive (sub i of r) ↔ activeSubState r = i` and `isResumable (sub i of r) ↔ resumable r = i`
     hold by construction of the queries (`sub_queries`, `activeSubState_eq`), for every tree.
-    Resume: `resume_activates_resumable` — on a well-formed active tree without marks, a lone `resume r`,
-    applied (`mark`, `fwdActive`) and committed, leaves the sub-state that `isResumable` named (or
-    sub-state 0 when none is) active.
+    Resume: `resume_activates_resumable_partial / _root / resume_without_resumable` — on a well-formed active
+    tree without marks, a lone `resume r`, applied (`mark`, `fwdActive`) and committed, leaves the sub-state
+    that `isResumable` named (or sub-state 0 when none is) active — PROVIDED `r` has a composite ancestor or is
+    the root.  For the remaining regions (directly below an orthogonal root / below orthogonal regions only)
+    the statement is FALSE: every request addressed to them is silently dropped (`witness_resume_ignored`,
+    new finding S8).
 (b) Pending queries.  `pending_table` gives, from one and the same fork `(μC, active, requested, remain, k)`,
     both what the three queries answer and in which mode the commit pass traverses the state;
     `commit_outcome` ties the modes to the outcome (`isActive` afterwards = (before ∧ ¬exited) ∨ entered,
@@ -39,8 +42,12 @@ the name in brackets is the class `tools/oracle_c13.py` files the observation un
                       that the pass does not enter (losing candidate of a utilitarian / random resolution).
   S7 [enter-root / exit-root] a state without composite ancestor (the root, or below orthogonal regions
                       only): all queries answer 0, also while it is being entered / exited.
+  S8 [resume-ignored] (consistency part, NEW) a request addressed to a composite region without composite
+                      ancestor is dropped, so `resume` does not activate its resumable sub-state.
 -/
 import Hfsm.Proofs.QueryPending
+import Hfsm.Proofs.QueryResume
+import Hfsm.Proofs.UtilityExact
 
 namespace Hfsm.Props.C13
 open Hfsm
@@ -112,6 +119,83 @@ theorem activeSubState_iff_isActive (root : Node) (rId subId : Nat) (pR : List N
   obtain ⟨h1, h2, _⟩ := sub_queries root pR i id rid inj h st a r q m s c root.machineActive hR hc
   rw [h1, h2]
   simp
+
+/-- **Resume activates the sub-state reported resumable** (`_partial`: the region has a composite ancestor,
+or is the root — see `witness_resume_ignored` for the other regions).  `root` is a well-formed active tree
+without request marks (the state between processing steps), `R` the composite region at path `pR`, `x` one of
+its sub-states with `isResumable x` (path form).  A lone `resume R` — `requestImmediate` (`mark`), the forward
+pass (`fwdActive`, kind `resume`), no veto, the commit pass — leaves `x` active: for every world, i.e.
+whatever the callbacks do on the way. -/
+theorem resume_activates_resumable_partial {U : Type} [UtilArith U] (root : Node) (pR : List Nat) (x : Nat)
+    (id rid inj : Nat) (h : Bool) (st : Strategy) (a r q : Option Nat) (m : Bool) (s : Subs) (c : Node)
+    (rq : Req) (hk : rq.kind = .resume) (w w' : World U)
+    (hnm : root.NoMarks) (hact : root.Act)
+    (hR : root.follow pR = some (.compo id rid inj h st a r q m s)) (hc : s.get? x = some c)
+    (hres : root.resumableP (pR ++ [x]) = true)
+    (hfork : (root.lastCompo pR none).isSome = true) :
+    (((root.mark pR).1.fwdActive rq w).1.commit w').1.actP (pR ++ [x]) true = true := by
+  have hr : r = some x := by
+    have := (sub_queries root pR x id rid inj h st a r q m s c false hR hc).2.1
+    rw [this] at hres; simpa using hres
+  have hend : root.endRes pR = some x := by
+    simp [Node.endRes, hR, hr, hc]
+  exact Node.resume_commit root pR x rq hk w w' hnm hact hend hfork
+
+/-- The same when `R` is the root region (the request is then applied by `deepRequest` on the root). -/
+theorem resume_activates_resumable_root {U : Type} [UtilArith U] (x : Nat)
+    (id rid inj : Nat) (h : Bool) (st : Strategy) (a r q : Option Nat) (m : Bool) (s : Subs) (c : Node)
+    (rq : Req) (hk : rq.kind = .resume) (w w' : World U)
+    (hnm : (Node.compo id rid inj h st a r q m s).NoMarks) (hact : (Node.compo id rid inj h st a r q m s).Act)
+    (hc : s.get? x = some c) (hres : (Node.compo id rid inj h st a r q m s).resumableP [x] = true) :
+    (((Node.compo id rid inj h st a r q m s).request rq w).1.commit w').1.actP [x] true = true := by
+  have hr : r = some x := by
+    have := (sub_queries (Node.compo id rid inj h st a r q m s) [] x id rid inj h st a r q m s c false rfl hc).2.1
+    simp only [List.nil_append] at this
+    rw [this] at hres; simpa using hres
+  have hend : (Node.compo id rid inj h st a r q m s).endRes [] = some x := by
+    simp [Node.endRes, Node.follow, hr, hc]
+  exact Node.resume_commit_root _ x rq hk w w' hnm hact hend
+
+/-- With no resumable sub-state the same request activates sub-state 0 (`resumable != INVALID ? resumable : 0`). -/
+theorem resume_without_resumable {U : Type} [UtilArith U] (root : Node) (pR : List Nat)
+    (id rid inj : Nat) (h : Bool) (st : Strategy) (a q : Option Nat) (m : Bool) (s : Subs) (c : Node)
+    (rq : Req) (hk : rq.kind = .resume) (w w' : World U)
+    (hnm : root.NoMarks) (hact : root.Act)
+    (hR : root.follow pR = some (.compo id rid inj h st a none q m s)) (hc : s.get? 0 = some c)
+    (hfork : (root.lastCompo pR none).isSome = true) :
+    (((root.mark pR).1.fwdActive rq w).1.commit w').1.actP (pR ++ [0]) true = true := by
+  have hend : root.endRes pR = some 0 := by simp [Node.endRes, hR, hc]
+  exact Node.resume_commit root pR 0 rq hk w w' hnm hact hend hfork
+
+/-- a machine the hypotheses hold of: root `{R {x, y}, z}`, `R` active in `y`, `x` resumable -/
+def resumeTree : Node :=
+  .compo 0 0 0 true .composite (some 0) none none false
+    (.cons false (.compo 1 1 0 true .resumable (some 1) (some 0) none false
+        (.cons false (.leaf 2 0) (.cons false (.leaf 3 0) .nil)))
+    (.cons false (.leaf 4 0) .nil))
+
+example : resumeTree.NoMarks ∧ resumeTree.Act ∧ resumeTree.resumableP ([0] ++ [0]) = true ∧
+    (resumeTree.lastCompo [0] none).isSome = true := by
+  refine ⟨by simp [resumeTree, Node.NoMarks, Subs.NoMarksAll],
+    by simp [resumeTree, Node.Act, Subs.ActAt, Node.Clean, Subs.CleanAll], by decide +kernel, by decide +kernel⟩
+
+/-- **The unrestricted statement is false** (NEW FINDING, confirmed on the real library): a request whose
+destination is a composite region WITHOUT composite ancestor — a region directly below an orthogonal root, or
+below orthogonal regions only — is silently dropped: `requestImmediate` only sets orthogonal bits,
+`O_::deepForwardActive` forwards to `C_::deepForwardActive`, which finds `requested = INVALID` and forwards
+into the active sub-state.  So `resume`, `restart`, `changeTo` … of such a region do nothing.
+Here: orthogonal root `{R {x, y}}`, `R` active in `y`, `x` resumable: after `resume R`, `y` is still active.
+Harness replay: shape `(O h1 i0 (C h1 i0 composite (L i0) (L i0)) (C h1 i0 composite (L i0) (L i0)))`:
+`op 0 new`, `op 0 imm C 3 -`, `op 0 imm M 1 -` → no callback at all, `snap … S=-,1,…` (expected `S[1]=0`);
+also `imm C 1` / `imm R 1` (expected a restart of region 1 in its first sub-state). -/
+theorem witness_resume_ignored :
+    let root : Node := .ortho 0 0 0 true
+      (.cons false (.compo 1 1 0 true .composite (some 1) (some 0) none false
+        (.cons false (.leaf 2 0) (.cons false (.leaf 3 0) .nil))) .nil)
+    let w : World Int := { cfg := {} }
+    let t := (((root.mark [0]).1.fwdActive ⟨.resume, none⟩ w).1.commit w).1
+    root.isResumable 2 = true ∧ t.actP [0, 0] true = false ∧ t.actP [0, 1] true = true ∧
+    (root.lastCompo [0] none).isSome = false := by decide +kernel
 
 /-! ## (b) pending queries -/
 
@@ -320,5 +404,28 @@ theorem full_statement_false :
     (by simp [idleTree, Node.Valid, Node.follow, Node.subs, Subs.get?])).2.1
   revert this
   decide +kernel
+
+/-
+Theorems that constitute property C13 (for `Props/INDEX.json`):
+
+  (a) query_nearest_fork                 every query = fork test on the nearest composite ancestor (all trees)
+      sub_queries                        isActive/isResumable/isPending* of sub-state i of a region, in closed form
+      activeSubState_eq / activeSubState_iff_isActive
+                                         activeSubState r = some i ⇔ isActive (sub i of r); isResumable ⇔ resumable = i
+                                         (id ↔ path bijection: C01/C17 builders' `Numbered`)
+      resume_activates_resumable_partial lone resume of a region WITH composite ancestor: resumable sub-state active afterwards
+      resume_activates_resumable_root    same for the root region
+      resume_without_resumable           no resumable sub-state: sub-state 0
+      witness_resume_ignored             NEGATION for regions without composite ancestor (new finding S8)
+  (b) pending_table                      queries and traversal mode from the same fork
+      commit_outcome                     isActive after commit = (before ∧ ¬willExit) ∨ willEnter, all worlds
+      pending_partial  (= C13_pending_partial)   query = outcome under `PendHyp`
+      pending_exact                      `PendHyp` is exact (Proofs: pendHyp_iff_agree)
+      pending_no_fork, pending_idle      no composite ancestor: all 0; no request on the fork: F6 in general
+      witness_idle, witness_change_sibling, witness_restart_in_place (+ restartTree_reachable),
+      witness_exit_deep, witness_enter_loser, witness_enter_root      signatures S1 … S7
+      full_statement_false               negation of the full statement
+  isPath bridges: isResumable_path, isPendingEnter_path, isPendingExit_path, isPendingChange_path, isActive_path
+-/
 
 end Hfsm.Props.C13
